@@ -208,8 +208,10 @@ def case_misc():
     out.append({"name": "ms_dupfield", "kind": "misc", "cmds": ["check", "emit"], "files": {"main.incn":
         "model P:\n    a: int\n    b: int\n    c: int\n\ndef main() -> None:\n    p = P(a=1, a=2, zz=3, yy=4)\n    println(1)\n"}})
     out.append({"name": "ms_unicode", "kind": "misc", "cmds": ["check", "emit", "build", "fmt-diff", "emit-many"], "files": {"main.incn":
-        "const GREETING: str = \"h\u00e9llo \u4e16\u754c \U0001F600\"\nconst G2: str = GREETING + \" \u00fc\"\n\nmodel P\u00e9:\n    n\u00e4me: str\n\n"
-        "def main() -> None:\n    p = P\u00e9()\n    println(f\"{G2} \u00e7a\")\n"}})
+        "const GREETING: str = \"h\u00e9llo \u4e16\u754c \U0001F600\"\nconst G2: str = GREETING + \" \u00fc\"\n\nmodel Pe:\n    name: str\n    other: str\n\n"
+        "def main() -> None:\n    p = Pe()\n    println(f\"{G2} \u00e7a\")\n"}})
+    out.append({"name": "ms_unicode_id", "kind": "misc", "cmds": ["check", "emit", "fmt-diff"], "files": {"main.incn":
+        "model P\u00e9:\n    n\u00e4me: str\n\ndef main() -> None:\n    println(1)\n"}})
     out.append({"name": "ms_cycle", "kind": "misc", "cmds": ["check", "emit", "build", "collector"], "files": {
         "main.incn": "from a import fa\n\ndef main() -> None:\n    println(fa())\n",
         "a.incn": "from b import fb\n\npub def fa() -> int:\n    return fb()\n", "b.incn": "from a import fa\n\npub def fb() -> int:\n    return 1\n"}})
@@ -230,7 +232,7 @@ def corpus_cases(chk):
                 if f.endswith(".incn"):
                     found.append(os.path.join(d, f))
     if chk.tier == "quick":
-        found = sorted(chk.rng.sample(found, min(40, len(found))))
+        found = sorted(chk.rng.sample(found, min(24, len(found))))
     cases = []
     for i, path in enumerate(found):
         d = os.path.dirname(path)
@@ -314,6 +316,9 @@ def gen_cases(chk):
         case_multi(rng, "mf1", [["util"]]),
         case_multi(rng, "mf5", [["db", "models"], ["db", "conn"], ["util"], ["svc", "api", "v1"], ["svc", "api", "v2"], ["svc", "core"], ["zeta"]]),
         case_fmt("fmt"), case_hint("hint"), case_fixtures("fx"),
+        {"name": "crb", "kind": "crates", "crates": ["tokio", "rand", "serde", "serde_json"], "serde": True, "tokio": True, "cmds": ["check", "emit", "build"],
+         "files": {"main.incn": "import rust::tokio\nimport rust::rand\nimport rust::serde\nimport rust::serde_json\n\n@derive(Serialize)\nmodel P:\n    x: int\n\n"
+                                "async def f() -> int:\n    return 1\n\ndef main() -> None:\n    println(1)\n"}},
         case_web(rng, "web1", 1, 1), case_web(rng, "web2", 2, 2), case_web(rng, "web6", 6, 5), case_web(rng, "web17", 17, 5),
     ] + stress_cases() + [case_chain("ch%d" % n, n) for n in (1, 2, 16, 17, 18, 19, 33, 65)] + case_misc() + corpus_cases(chk)
     if big:
@@ -389,7 +394,7 @@ def job_args(case, cmd, rep=0):
     if cmd in ("fmt-diff", "fmt-check"):
         return [os.path.join("cases", case["name"])], None
     if cmd == "emit-many":
-        return [rel, "12"], None
+        return [rel, "8"], None
     return [rel], None
 
 
@@ -418,7 +423,9 @@ def run_slot(binary, scratch, jobs, i, stub):
         mo, me = rx.search(so), rx.search(se)
         if not mo or not me:
             raise vlib.Infra("c12 cli-batch: missing markers for job %d (%s %s)" % (k, case["name"], cmd))
-        r = {"rc": int(mo.group(2)), "stdout": mo.group(1), "stderr": me.group(1), "files": {}}
+        # absolute paths of the scratch root are the run's own location, not compiler output
+        r = {"rc": int(mo.group(2)), "stdout": mo.group(1).replace(os.path.realpath(root), "<root>"),
+             "stderr": me.group(1).replace(os.path.realpath(root), "<root>"), "files": {}}
         if r["rc"] == 2 and "c12 cli: unknown command" in r["stderr"]:
             raise vlib.Infra("harness c12 cli does not know %s" % cmd)
         if outs[k]:
@@ -656,10 +663,10 @@ def run(chk):
                 chk.count_case((c["name"], cmd, c["files"]), nontrivial=True)
                 chk.evaluations += runs - 1
                 if cmd == "emit-many":
-                    bad = [r for r in rs if "distinct outputs: 1\n" not in r["stdout"] + "\n"]
+                    bad = [r for r in rs if r["rc"] == 0 and "distinct outputs: 1\n" not in r["stdout"] + "\n"]
                     if bad:
                         fails.append({"case": c["name"], "command": cmd, "files": c["files"], "runs": runs,
-                                      "why": "generating the same program 12 times in one process gives different Rust: " + bad[0]["stdout"][:600],
+                                      "why": "generating the same program 8 times in one process gives different Rust: " + bad[0]["stdout"][:600],
                                       "run_0": summarize(bad[0])})
                         continue
                 if nd == 1:
